@@ -516,7 +516,112 @@ def h6_forms(nrev=2, timeout=300, part=None, **kw):
 
 
 # ---------------------------------------------------------------------------------------------- replay
+# ------------------------------------------------------------------------------------------ H7 damaged startxref / cross-reference table of a single-revision classic file
+FB_EOLS = [(b"\n", b" \n"), (b"\r\n", b"\r\n"), (b"\r", b" \r")]
+FB_DAMAGES = ["none", "sx-zero", "sx-header", "sx-beyond", "sx-midobj", "sx-neg", "sx-word", "sx-nonumber", "kw", "hdr-1field", "hdr-3fields", "hdr-word", "entry-2fields", "entry-4fields", "entry-1field",
+              "count-large", "count-huge"]
+FB_TEXT = "Hello fallback"
+
+
+def fb_doc(eol, eeol, damage):
+    """a single-revision file with a classic table, every line ended by `eol` (table entries by the two-byte `eeol`), with one damage that makes the startxref offset or the table unreadable"""
+    from lib.pdfgen import ser, Ref as R
+    objs = {1: {"Type": "Catalog", "Pages": R(2)}, 2: {"Type": "Pages", "Kids": [R(4)], "Count": 1}, 3: {"Type": "Font", "Subtype": "Type1", "BaseFont": "Helvetica"},
+            4: {"Type": "Page", "Parent": R(2), "MediaBox": [0, 0, 200, 200], "Contents": R(5), "Resources": {"Font": {"F1": R(3)}}}, 6: b"a (string)", 7: [1, 2.5, "Name", [b"x"]]}
+    content = b"BT /F1 10 Tf 10 100 Td (" + FB_TEXT.encode() + b") Tj ET"
+    out = b"%PDF-1.4" + eol
+    offs = {}
+    for n in range(1, 8):
+        offs[n] = len(out)
+        out += b"%d 0 obj" % n + eol
+        if n == 5:
+            out += ser({"Length": len(content)}) + eol + b"stream\n" + content + b"\nendstream" + eol
+        else:
+            out += ser(objs[n]) + eol
+        out += b"endobj" + eol
+    xpos = len(out)
+    entries = [b"0000000000 65535 f" + eeol] + [b"%010d 00000 n" % offs[n] + eeol for n in range(1, 8)]
+    kw, hdr = b"xref", b"0 8"
+    if damage == "kw": kw = b"xreg"
+    if damage == "hdr-1field": hdr = b"8"
+    if damage == "hdr-3fields": hdr = b"0 8 1"
+    if damage == "hdr-word": hdr = b"0 x"
+    if damage == "count-large": hdr = b"0 9"
+    if damage == "count-huge": hdr = b"0 800"
+    if damage == "entry-2fields": entries[3] = b"%010d n       " % offs[3] + eeol
+    if damage == "entry-4fields": entries[3] = b"%08d 0 0 n  " % offs[3] + eeol
+    if damage == "entry-1field": entries[3] = b"%018d" % offs[3] + eeol
+    sx = {"sx-zero": b"0", "sx-header": b"5", "sx-beyond": b"%d" % (len(out) + 4000), "sx-midobj": b"%d" % (offs[3] + 3), "sx-neg": b"-7", "sx-word": b"abc", "sx-nonumber": None}.get(damage, b"%d" % xpos)
+    out += kw + eol + hdr + eol + b"".join(entries) + b"trailer" + eol + ser({"Size": 8, "Root": R(1)}) + eol + b"startxref" + eol + (sx + eol if sx is not None else b"") + b"%%EOF" + eol
+    return out, objs, content
+
+
+def _fb_plain(x):
+    from pdfminer.pdftypes import PDFObjRef
+    from pdfminer.psparser import PSLiteral
+    if isinstance(x, dict): return {k: _fb_plain(v) for k, v in x.items()}
+    if isinstance(x, list): return [_fb_plain(v) for v in x]
+    if isinstance(x, PDFObjRef): return ("ref", x.objid)
+    if isinstance(x, PSLiteral): return ("name", x.name)
+    return x
+
+
+def _fb_expect(x):
+    from lib.pdfgen import Ref as R
+    if isinstance(x, dict): return {k: _fb_expect(v) for k, v in x.items()}
+    if isinstance(x, list): return [_fb_expect(v) for v in x]
+    if isinstance(x, R): return ("ref", x.n)
+    if isinstance(x, str): return ("name", x)
+    return x
+
+
+def _fb_check(sel):
+    import io
+    from pdfminer.pdfparser import PDFParser
+    from pdfminer.pdfdocument import PDFDocument
+    from pdfminer.high_level import extract_text
+    (eol, eeol), damage, caching = FB_EOLS[sel["eol"]], FB_DAMAGES[sel["damage"]], bool(sel["caching"])
+    data, objs, content = fb_doc(eol, eeol, damage)
+    desc = "single-revision classic-table file (line ends %r), damage %s, caching=%s" % (eol, damage, caching)
+    try:
+        doc = PDFDocument(PDFParser(io.BytesIO(data)), caching=caching)
+        for n in (1, 2, 3, 4, 6, 7):
+            got = _fb_plain(doc.getobj(n))
+            if got != _fb_expect(objs[n]):
+                return "%s: object %d reads %r, the file defines %r" % (desc, n, got, _fb_expect(objs[n]))
+        if doc.getobj(5).get_data().rstrip(b"\r\n") != content:          # the scan reads a stream up to `endstream`; the end-of-line before that keyword may stay attached
+            return "%s: stream 5 reads %r" % (desc, doc.getobj(5).get_data())
+        if _fb_plain(doc.catalog) != _fb_expect(objs[1]):
+            return "%s: the catalog is %r" % (desc, doc.catalog)
+        ids = sorted(set(i for x in doc.xrefs for i in x.get_objids()))
+        if ids != [1, 2, 3, 4, 5, 6, 7]:
+            return "%s: in-use object numbers reported %r, defined are 1..7" % (desc, ids)
+        txt = extract_text(io.BytesIO(data), caching=caching)
+        if txt.strip() != FB_TEXT:
+            return "%s: extracted text %r, the undamaged file gives %r" % (desc, txt, FB_TEXT)
+    except Exception as e:
+        return "%s: raised %s: %s" % (desc, type(e).__name__, str(e)[:200])
+    return None
+
+
+def h7_fallback(timeout=200, part=None, **kw):
+    """if the startxref offset or the cross-reference table of a single-revision classic-table file is unreadable, scanning the body still finds every object, the catalog and the same text"""
+    import pdfminer.pdfdocument as pd
+
+    def fn(ex):
+        sel = {"eol": ex.choice(len(FB_EOLS), "eol"), "damage": ex.choice(len(FB_DAMAGES), "damage"), "caching": ex.choice(2, "caching")}
+        r = _fb_check(sel)
+        ex.require(r is None, r or "", fb=sel)
+
+    def conc(m, info):
+        return {"fb": info["fb"]}
+    return core.run_symx("H7_fallback", fn, [pd.PDFDocument.__init__, pd.PDFXRef.load, pd.PDFXRefFallback.load, pd.PDFDocument.find_xref, pd.PDFDocument.read_xref_from],
+                         {"damages": FB_DAMAGES, "line ends": [e[0].decode("latin-1").encode("unicode_escape").decode() for e in FB_EOLS], "caching": "on/off"}, timeout, concretize=conc, part=part)
+
+
 def replay(harness, inp):
+    if "fb" in inp:
+        return _fb_check(inp["fb"])
     if harness == "H6_forms":
         spec = dict(inp["spec"])
         spec["eol"] = spec["eol"].encode()
@@ -651,7 +756,7 @@ def _replay_chain(inp):
 
 
 def jobs(tier):
-    J = [Job("H4_classic", "h4_classic", {}, 150), Job("H5_findxref", "h5_findxref", {}, 150)]
+    J = [Job("H4_classic", "h4_classic", {}, 150), Job("H5_findxref", "h5_findxref", {}, 150), Job("H7_fallback", "h7_fallback", {}, 200)]
     if tier == "quick":
         for k in range(6):
             J.append(Job("H1_xrefstream:2:%d" % k, "h1_xrefstream", {"nranges": 2, "part": [k, 6, 9]}, 300, "H1_xrefstream"))
